@@ -97,7 +97,7 @@ pub fn gen_redex(r: &mut Rng) -> (String, &'static str) {
             };
             let e1 = eq(r, a, &t);
             let mut e2 = if r.chance(1, 4) { e1.clone() } else { eq(r, b, &t) };
-            if r.chance(1, 4) {
+            if r.chance(2, 5) {
                 // one of the equalities is the head of a comparison chain: it is more than an
                 // equality and must not be dropped as one
                 e2 = format!("{b} = {t} {} {}", ["<", "!=", ">=", "<="][r.upto(4)], ["W", "K$i", "0", "Z"][r.upto(4)]);
@@ -120,6 +120,20 @@ pub fn gen_redex(r: &mut Rng) -> (String, &'static str) {
                 format!("exists {binder} ({} and {} and {})", parts[0], parts[1], parts[2])
             };
             (s, "transitive-equality")
+        }
+        4 if r.chance(1, 4) => {
+            // substitute_defined_variables with an inner quantifier that binds the variable
+            // again: an equality about the inner variable says nothing about the outer one
+            let (a, b) = [("I$i", "Z"), ("X", "Y"), ("I$i", "K$i"), ("X$i", "Z")][r.upto(4)];
+            let c = if a.ends_with("$i") || b.ends_with("$i") { ["5", "1", "0"][r.upto(3)] } else { ["5", "a", "#sup"][r.upto(3)] };
+            let q = ["exists", "forall"][r.upto(2)];
+            let s = match r.below(4) {
+                0 => format!("exists {a} {b} ({b} = {c} and q({a}) and {q} {a} ({a} = {b} and p({a})))"),
+                1 => format!("exists {a} {b} (q({a}) and {q} {a} ({a} = {b} and p({a})) and {b} = {c})"),
+                2 => format!("exists {a} (q({a}) and exists {a} ({a} = {c} and p({a})))"),
+                _ => format!("exists {a} {b} ({b} = {c} and (q({a}) or {q} {a} ({a} = {b} -> p({a}))))"),
+            };
+            (s, "substitute-defined-shadowed")
         }
         4 => {
             // substitute_defined_variables
